@@ -285,6 +285,26 @@ pub fn observe(c: &ExecCase, env: &mut ExecEnv) -> String {
     s.push_str(&format!("setup={};setupok={};", encode(&rec.take()), if r.is_ok() { 1 } else { 0 }));
     let after = world_values(&c.regs, c.map, &world);
     s.push_str(&format!("setupkeeps={};", if before == after { 1 } else { 0 }));
+    // --- setup again, interleaved with removes (C13): some resources are taken away, setup is repeated: every system is
+    // visited once more, what still exists keeps its value, what the harness systems access exists again
+    {
+        let mut rs = Vec::new();
+        all_resources(&c.regs, &mut rs);
+        rs.sort(); rs.dedup();
+        let removed: Vec<u32> = rs.iter().cloned().filter(|r| crate::rng::mix(0xC13, *r as u64) % 3 == 0).collect();
+        for r in &removed { remove_value(&mut world, c.map.locate(*r)); }
+        let kept_before: Vec<(u32, Option<u64>)> = rs.iter().filter(|r| !removed.contains(r)).map(|r| (*r, read_value(&world, c.map.locate(*r)))).collect();
+        let r2 = catch_unwind(AssertUnwindSafe(|| dispatcher.setup(&mut world)));
+        let log2 = rec.take();
+        let kept_after: Vec<(u32, Option<u64>)> = rs.iter().filter(|r| !removed.contains(r)).map(|r| (*r, read_value(&world, c.map.locate(*r)))).collect();
+        let mut accessed = Vec::new();
+        crate::prog::sys_resources(&c.regs, &mut accessed);
+        let recreated = removed.iter().filter(|r| accessed.contains(r)).all(|r| read_value(&world, c.map.locate(*r)).is_some());
+        s.push_str(&format!("setup2={};setup2ok={};setup2keeps={};setup2recreates={};", encode(&log2), r2.is_ok() as u8,
+                            (kept_before == kept_after) as u8, recreated as u8));
+        // restore the values the runs below expect
+        for r in &removed { set_value(&mut world, c.map.locate(*r), *r as u64 + 1); }
+    }
     // --- identification run: the real layout of every level
     rec.identify.store(true, Ordering::SeqCst);
     let (shape0, tl0) = dispatcher.verif_shape();
